@@ -40,7 +40,7 @@ class BaseRays:
             ValueError: If the input data type is not supported (must be a
                 scalar or a NumPy array).
         """
-        if isinstance(data, (int, float)):
+        if isinstance(data, (int, float, np.integer, np.floating)):
             return np.array([data], dtype=float)
         elif isinstance(data, list):
             return np.array(data, dtype=float)
